@@ -29,7 +29,7 @@ func checkC13(w *World, r *Report) {
 }
 
 func checkC13Wiring(w *World, r *Report, d *dispatchInfo) {
-	ru := r.Rule("C13.3", "chain wiring: ServeHTTP runs routes through Route.hall, Route.Handle through hbase, Route.HandleMiddleware through hself; NewRoute stores (hself, hall) = applyRouteMiddleware(route's own list, handler) after the option loop and hbase = handler", 6)
+	ru := r.Rule("C13.3", "chain wiring: ServeHTTP runs routes through Route.hall, Route.Handle through hbase, Route.HandleMiddleware through hself; NewRoute stores (hself, hall) = applyRouteMiddleware(route's own list, handler) after the option loop and hbase = handler", 3)
 	route := w.FoxType("Route")
 	hall, hself, hbase, mws := w.Field(route, "hall"), w.Field(route, "hself"), w.Field(route, "hbase"), w.Field(route, "mws")
 	ru.Check("route calls in ServeHTTP", w.Pos(d.fn.Pos()), "both route dispatch sites (direct match, ignored trailing slash) go through Route.hall", len(d.routeCalls) >= 2, fmt.Sprintf("%d call(s) through hall", len(d.routeCalls)))
@@ -116,7 +116,7 @@ func checkC13Wiring(w *World, r *Report, d *dispatchInfo) {
 
 // loopShape describes a composition loop `for i := len(mws)-1; i >= 0; i-- { if cond { acc = mws[i].m(acc) } }`.
 func checkC13Loops(w *World, r *Report) {
-	ru := r.Rule("C13.4", "composition loops: applyMiddleware and applyRouteMiddleware walk the list from the last entry to the first, wrap the accumulator only when the entry's scope includes the wanted scope, and the route-only accumulator only for non-global entries; applyRouteMiddleware returns (route-only, all)", 6)
+	ru := r.Rule("C13.4", "composition loops: applyMiddleware and applyRouteMiddleware walk the list from the last entry to the first, wrap the accumulator only when the entry's scope includes the wanted scope, and the route-only accumulator only for non-global entries; applyRouteMiddleware returns (route-only, all)", 3)
 	mwT := w.FoxType("middleware")
 	scopeF, gF, mF := w.Field(mwT, "scope"), w.Field(mwT, "g"), w.Field(mwT, "m")
 	rh, _ := w.Fox.Types.Scope().Lookup("RouteHandler").(*types.Const)
@@ -179,7 +179,7 @@ func checkC13Loops(w *World, r *Report) {
 			}
 			scopeOK, gFalse, gSeen := false, false, false
 			for _, ft := range factsAtBlock(c.Block()) {
-				if bo, ok := ft.Cond.(*ssa.BinOp); ok && bo.Op == token.NEQ && ft.Val {
+				if bo, ok := ft.Cond.(*ssa.BinOp); ok && ((bo.Op == token.NEQ && ft.Val) || (bo.Op == token.EQL && !ft.Val)) {
 					if and, ok := bo.X.(*ssa.BinOp); ok && and.Op == token.AND {
 						if z, ok := constInt(bo.Y); ok && z == 0 {
 							_, lf, isLoad := loadedField(and.X)
@@ -346,7 +346,7 @@ func traceSliceDest(arr ssa.Value) (*types.Var, bool) {
 }
 
 func checkC13Entries(w *World, r *Report) {
-	ru := r.Rule("C13.5", "list entries: every entry appended to Router.mws is flagged global; every entry appended to Route.mws is route-scoped and not global; WithMiddleware registers global entries for all scopes; DefaultOptions prepends {Recovery, RouteHandler} then {Logger, AllHandlers}", 5)
+	ru := r.Rule("C13.5", "list entries: every entry appended to Router.mws is flagged global; every entry appended to Route.mws is route-scoped and not global; WithMiddleware registers global entries for all scopes; DefaultOptions prepends {Recovery, RouteHandler} then {Logger, AllHandlers}", 3)
 	router, route := w.FoxType("Router"), w.FoxType("Route")
 	rmws, tmws := w.Field(router, "mws"), w.Field(route, "mws")
 	constOf := func(name string) int64 {
